@@ -322,6 +322,27 @@ impl ProtoCtx {
                 }
                 r1
             }
+            // ---------------------------------------------------------------- the typed layer below the RLN object: a tree with one
+            // registered leaf, the request parser, `generate_proof`, `proof_values_from_witness`, `verify_proof` called directly
+            ("typed_prove", 4) => {
+                use zerokit_utils::merkle_tree::ZerokitMerkleTree;
+                let mut tree = rln::poseidon_tree::PoseidonTree::default(20).ok()?;
+                tree.set(parse_usize(w[1])?, parse_fr(w[2])?).ok()?;
+                let req = parse_bytes(w[3])?;
+                match proof_inputs_to_rln_witness(&mut tree, &req) {
+                    Err(_) => "err".into(),
+                    Ok((wi, _)) => match generate_proof(zkey_from_folder(), &wi, rln::circuit::graph_from_folder()) {
+                        Err(_) => "err".into(),
+                        Ok(proof) => match proof_values_from_witness(&wi) {
+                            Err(_) => "proof-without-values".into(),
+                            Ok(pv) => {
+                                let ok = verify_proof(&zkey_from_folder().0.vk, &proof, &pv).unwrap_or(false) && pv.root == tree.root();
+                                format!("ok {} {}", show_bytes(&serialize_proof_values(&pv)), if ok { "accept" } else { "reject-false" })
+                            }
+                        },
+                    },
+                }
+            }
             // ---------------------------------------------------------------- the RLN object
             ("rln", _) if w.len() >= 2 => return self.rln_op(&w[1..]),
             // independent oracle: arkworks point decoding and the Groth16 verdict for the values read
@@ -348,7 +369,7 @@ impl ProtoCtx {
     fn rln_op(&mut self, w: &[&str]) -> Option<String> {
         let chunk = self.chunk;
         let res = |r: color_eyre::Result<()>| if r.is_ok() { "ok".to_string() } else { "err".to_string() };
-        let out = |r: color_eyre::Result<()>, c: Cursor<Vec<u8>>| if r.is_ok() { format!("ok {}", show_bytes(&c.into_inner())) } else { "err".to_string() };
+        let out = |r: color_eyre::Result<()>, c: crate::protoops::ChunkWriter| if r.is_ok() { format!("ok {}", show_bytes(&c.into_inner())) } else { "err".to_string() };
         Some(match (w[0], w.len()) {
             // every reader handed to the API from now on delivers at most n bytes per read() call (0: everything at once)
             ("chunk", 2) => { self.chunk = parse_usize(w[1])?; "ok".into() }
@@ -356,6 +377,20 @@ impl ProtoCtx {
                 self.rln = None;
                 self.rln();
                 "ok".into()
+            }
+            // an RLN object on a persistent location chosen by the caller, through `RLN::new` (configuration under "tree_config") or
+            // through `RLN::new_with_params` (the bare tree configuration); the previous object is dropped first
+            ("new_at", 2) | ("new_params_at", 2) => {
+                self.rln = None;
+                let tc = format!("{{\"path\": \"{}\", \"temporary\": false}}", w[1]);
+                let r = if w[0] == "new_at" {
+                    RLN::new(20, Cursor::new(format!("{{\"tree_config\": {}}}", tc)))
+                } else {
+                    let repo = std::env::var("ZK_REPO").unwrap_or_else(|_| "/repo".to_string());
+                    let dir = format!("{}/rln/resources/tree_height_20", repo);
+                    RLN::new_with_params(20, std::fs::read(format!("{}/rln_final.zkey", dir)).ok()?, std::fs::read(format!("{}/graph.bin", dir)).ok()?, Cursor::new(tc))
+                };
+                match r { Ok(x) => { self.rln = Some(x); "ok".into() } Err(_) => "err".into() }
             }
             // the same instance built from caller-supplied resources (the key file and graph of the repository, read here as bytes)
             ("new_params", 1) => {
@@ -401,13 +436,13 @@ impl ProtoCtx {
                     ("w", "get_proof", 2) => self.rln().get_proof(parse_usize(a[1])?, &mut none[..]),
                     ("w", "empty", 1) => self.rln().get_empty_leaves_indices(&mut none[..]),
                     ("w", "prove_req", 2) => self.rln().generate_rln_proof(crate::protoops::ChunkReader::new(chunk, parse_bytes(a[1])?), &mut none[..]),
-                    ("r", "prove_req", 2) => { let mut c = Cursor::new(Vec::new()); self.rln().generate_rln_proof(fr(parse_bytes(a[1])?), &mut c) }
+                    ("r", "prove_req", 2) => { let mut c = crate::protoops::ChunkWriter::new(chunk); self.rln().generate_rln_proof(fr(parse_bytes(a[1])?), &mut c) }
                     ("r", "verify_rln", 2) => self.rln().verify_rln_proof(fr(parse_bytes(a[1])?)).map(|_| ()),
                     ("r", "verify", 2) => self.rln().verify(fr(parse_bytes(a[1])?)).map(|_| ()),
                     ("w", "key_gen", 1) => self.rln().key_gen(&mut none[..]),
                     ("w", "seeded_key_gen", 2) => self.rln().seeded_key_gen(crate::protoops::ChunkReader::new(chunk, parse_bytes(a[1])?), &mut none[..]),
-                    ("r", "seeded_key_gen", 2) => { let mut c = Cursor::new(Vec::new()); self.rln().seeded_key_gen(fr(parse_bytes(a[1])?), &mut c) }
-                    ("r", "recover", 3) => { let mut c = Cursor::new(Vec::new()); self.rln().recover_id_secret(okr(parse_bytes(a[1])?), fr(parse_bytes(a[2])?), &mut c) }
+                    ("r", "seeded_key_gen", 2) => { let mut c = crate::protoops::ChunkWriter::new(chunk); self.rln().seeded_key_gen(fr(parse_bytes(a[1])?), &mut c) }
+                    ("r", "recover", 3) => { let mut c = crate::protoops::ChunkWriter::new(chunk); self.rln().recover_id_secret(okr(parse_bytes(a[1])?), fr(parse_bytes(a[2])?), &mut c) }
                     ("w", "recover", 3) => self.rln().recover_id_secret(crate::protoops::ChunkReader::new(chunk, parse_bytes(a[1])?), crate::protoops::ChunkReader::new(chunk, parse_bytes(a[2])?), &mut none[..]),
                     _ => return None,
                 };
@@ -416,9 +451,9 @@ impl ProtoCtx {
             ("set_leaf", 3) => { let b = fr_to_bytes_le(&parse_fr(w[2])?); res(self.rln().set_leaf(parse_usize(w[1])?, crate::protoops::ChunkReader::new(chunk, b))) }
             ("set_next", 2) => { let b = fr_to_bytes_le(&parse_fr(w[1])?); res(self.rln().set_next_leaf(crate::protoops::ChunkReader::new(chunk, b))) }
             ("delete", 2) => res(self.rln().delete_leaf(parse_usize(w[1])?)),
-            ("root", 1) => { let mut c = Cursor::new(Vec::new()); let r = self.rln().get_root(&mut c); if r.is_ok() { fr_hex(&bytes_le_to_fr(&c.into_inner()).0) } else { "err".into() } }
-            ("get_leaf", 2) => { let mut c = Cursor::new(Vec::new()); let r = self.rln().get_leaf(parse_usize(w[1])?, &mut c); if r.is_ok() { fr_hex(&bytes_le_to_fr(&c.into_inner()).0) } else { "err".into() } }
-            ("get_proof", 2) => { let mut c = Cursor::new(Vec::new()); let r = self.rln().get_proof(parse_usize(w[1])?, &mut c); out(r, c) }
+            ("root", 1) => { let mut c = crate::protoops::ChunkWriter::new(chunk); let r = self.rln().get_root(&mut c); if r.is_ok() { fr_hex(&bytes_le_to_fr(&c.into_inner()).0) } else { "err".into() } }
+            ("get_leaf", 2) => { let mut c = crate::protoops::ChunkWriter::new(chunk); let r = self.rln().get_leaf(parse_usize(w[1])?, &mut c); if r.is_ok() { fr_hex(&bytes_le_to_fr(&c.into_inner()).0) } else { "err".into() } }
+            ("get_proof", 2) => { let mut c = crate::protoops::ChunkWriter::new(chunk); let r = self.rln().get_proof(parse_usize(w[1])?, &mut c); out(r, c) }
             ("leaves_set", 1) => format!("{}", self.rln().leaves_set()),
             ("set_leaves_from", 3) => { let b = vec_fr_to_bytes_le(&list_fr(w[2])?).ok()?; res(self.rln().set_leaves_from(parse_usize(w[1])?, crate::protoops::ChunkReader::new(chunk, b))) }
             ("init_leaves", 2) => { let b = vec_fr_to_bytes_le(&list_fr(w[1])?).ok()?; res(self.rln().init_tree_with_leaves(crate::protoops::ChunkReader::new(chunk, b))) }
@@ -428,11 +463,11 @@ impl ProtoCtx {
                 let ib = vec_u8_to_bytes_le(&idx).ok()?;
                 res(self.rln().atomic_operation(parse_usize(w[1])?, crate::protoops::ChunkReader::new(chunk, b), crate::protoops::ChunkReader::new(chunk, ib)))
             }
-            ("empty", 1) => { let mut c = Cursor::new(Vec::new()); let r = self.rln().get_empty_leaves_indices(&mut c); out(r, c) }
+            ("empty", 1) => { let mut c = crate::protoops::ChunkWriter::new(chunk); let r = self.rln().get_empty_leaves_indices(&mut c); out(r, c) }
             // proving entry points: raw request bytes in, message bytes out
-            ("prove_req", 2) => { let mut c = Cursor::new(Vec::new()); let r = self.rln().generate_rln_proof(crate::protoops::ChunkReader::new(chunk, parse_bytes(w[1])?), &mut c); out(r, c) }
-            ("prove_wit", 2) => { let mut c = Cursor::new(Vec::new()); let r = self.rln().generate_rln_proof_with_witness(crate::protoops::ChunkReader::new(chunk, parse_bytes(w[1])?), &mut c); out(r, c) }
-            ("prove_raw", 2) => { let mut c = Cursor::new(Vec::new()); let r = self.rln().prove(crate::protoops::ChunkReader::new(chunk, parse_bytes(w[1])?), &mut c); out(r, c) }
+            ("prove_req", 2) => { let mut c = crate::protoops::ChunkWriter::new(chunk); let r = self.rln().generate_rln_proof(crate::protoops::ChunkReader::new(chunk, parse_bytes(w[1])?), &mut c); out(r, c) }
+            ("prove_wit", 2) => { let mut c = crate::protoops::ChunkWriter::new(chunk); let r = self.rln().generate_rln_proof_with_witness(crate::protoops::ChunkReader::new(chunk, parse_bytes(w[1])?), &mut c); out(r, c) }
+            ("prove_raw", 2) => { let mut c = crate::protoops::ChunkWriter::new(chunk); let r = self.rln().prove(crate::protoops::ChunkReader::new(chunk, parse_bytes(w[1])?), &mut c); out(r, c) }
             // fourth proving entry point: an externally computed witness vector (as rln-wasm does) + generate_proof_with_witness
             ("prove_ext", 2) => {
                 use ark_serialize::CanonicalSerialize;
@@ -461,7 +496,7 @@ impl ProtoCtx {
             // prove and verify in one step (the proof is randomised, the verdict and the published values are not)
             ("prove_verify", 3) => {
                 let (req, sig) = (parse_bytes(w[1])?, parse_bytes(w[2])?);
-                let mut c = Cursor::new(Vec::new());
+                let mut c = crate::protoops::ChunkWriter::new(chunk);
                 match self.rln().generate_rln_proof(crate::protoops::ChunkReader::new(chunk, req), &mut c) {
                     Err(_) => "err".into(),
                     Ok(()) => {
@@ -479,14 +514,31 @@ impl ProtoCtx {
             ("verify", _) if w.len() >= 2 => verdict(self.rln().verify(crate::protoops::ChunkReader::new(chunk, parse_bytes(w[1])?))),
             ("verify_rln", _) if w.len() >= 2 => verdict(self.rln().verify_rln_proof(crate::protoops::ChunkReader::new(chunk, parse_bytes(w[1])?))),
             ("verify_roots", _) if w.len() >= 3 => verdict(self.rln().verify_with_roots(crate::protoops::ChunkReader::new(chunk, parse_bytes(w[1])?), crate::protoops::ChunkReader::new(chunk, parse_bytes(w[2])?))),
-            ("seeded_key_gen", 2) => { let mut c = Cursor::new(Vec::new()); let r = self.rln().seeded_key_gen(crate::protoops::ChunkReader::new(chunk, parse_bytes(w[1])?), &mut c); out(r, c) }
-            ("seeded_ext_key_gen", 2) => { let mut c = Cursor::new(Vec::new()); let r = self.rln().seeded_extended_key_gen(crate::protoops::ChunkReader::new(chunk, parse_bytes(w[1])?), &mut c); out(r, c) }
-            ("key_gen", 1) => { let mut c = Cursor::new(Vec::new()); let r = self.rln().key_gen(&mut c); out(r, c) }
-            ("ext_key_gen", 1) => { let mut c = Cursor::new(Vec::new()); let r = self.rln().extended_key_gen(&mut c); out(r, c) }
-            ("recover", 3) => { let mut c = Cursor::new(Vec::new()); let r = self.rln().recover_id_secret(crate::protoops::ChunkReader::new(chunk, parse_bytes(w[1])?), crate::protoops::ChunkReader::new(chunk, parse_bytes(w[2])?), &mut c); out(r, c) }
+            ("seeded_key_gen", 2) => { let mut c = crate::protoops::ChunkWriter::new(chunk); let r = self.rln().seeded_key_gen(crate::protoops::ChunkReader::new(chunk, parse_bytes(w[1])?), &mut c); out(r, c) }
+            ("seeded_ext_key_gen", 2) => { let mut c = crate::protoops::ChunkWriter::new(chunk); let r = self.rln().seeded_extended_key_gen(crate::protoops::ChunkReader::new(chunk, parse_bytes(w[1])?), &mut c); out(r, c) }
+            ("key_gen", 1) => { let mut c = crate::protoops::ChunkWriter::new(chunk); let r = self.rln().key_gen(&mut c); out(r, c) }
+            ("ext_key_gen", 1) => { let mut c = crate::protoops::ChunkWriter::new(chunk); let r = self.rln().extended_key_gen(&mut c); out(r, c) }
+            ("recover", 3) => { let mut c = crate::protoops::ChunkWriter::new(chunk); let r = self.rln().recover_id_secret(crate::protoops::ChunkReader::new(chunk, parse_bytes(w[1])?), crate::protoops::ChunkReader::new(chunk, parse_bytes(w[2])?), &mut c); out(r, c) }
             _ => return None,
         })
     }
+}
+
+/// an in-memory sink that takes at most `chunk` bytes per `write()` call (0 = no limit): `Write::write` may legally accept
+/// only a prefix, so code that must deliver all of its output has to use `write_all`
+pub struct ChunkWriter(Vec<u8>, usize);
+impl ChunkWriter {
+    pub fn new(chunk: usize) -> Self { ChunkWriter(Vec::new(), chunk) }
+    pub fn into_inner(self) -> Vec<u8> { self.0 }
+    pub fn get_ref(&self) -> &Vec<u8> { &self.0 }
+}
+impl std::io::Write for ChunkWriter {
+    fn write(&mut self, buf: &[u8]) -> std::io::Result<usize> {
+        let n = if self.1 == 0 { buf.len() } else { buf.len().min(self.1) };
+        self.0.extend_from_slice(&buf[..n]);
+        Ok(n)
+    }
+    fn flush(&mut self) -> std::io::Result<()> { Ok(()) }
 }
 
 /// a reader over a byte vector that delivers at most `chunk` bytes per `read()` call (0 = no limit): `Read::read` may
